@@ -426,6 +426,11 @@ class Bounds:
         # (tuple of WithOverflow).0
         if isinstance(last, dict) and last.get("k") == "tuple" and last["f"] == 0 and len(pl["p"]) == 1:
             return self._ovf_tuple(pl["l"])
+        # payload of an enum value built in this body: `(r as Ok).0`, `(cf as Continue).0`, `(o as Some).0`
+        if len(pl["p"]) == 2 and isinstance(pl["p"][0], dict) and "dc" in pl["p"][0] and isinstance(last, dict) and last.get("f") == 0:
+            v = self._payload(pl["l"], pl["p"][0]["dc"], 0)
+            if v != INF:
+                return min(v, ty_max(last.get("ty", "")))
         if isinstance(last, dict) and "n" in last and "adt" in last:
             return min(ty_max(last["ty"]), field_hi(b.prog, last_seg(norm(last["adt"])), last["n"]))
         if isinstance(last, dict) and "ty" in last:
@@ -438,6 +443,39 @@ class Bounds:
                 return min(ty_max(t), self._deref_local(pl["l"]))
             return self.of_place(inner)
         return INF
+
+    def _payload(self, l, variant, depth):
+        """Upper bound of field 0 of `variant` of the enum held in local l, from the literals / `?` that define it."""
+        if depth > 6:
+            return INF
+        ds = self.b.defs().get(l, [])
+        if not ds:
+            return INF
+        hi = 0
+        same = {"Ok": ("Ok", "Continue"), "Continue": ("Ok", "Continue", "Some"), "Some": ("Some", "Continue")}.get(variant, (variant,))
+        for (bi, si, kind, payload) in ds:
+            v = INF
+            if kind == "assign" and not payload["place"]["p"]:
+                rv = payload["rv"]
+                if rv["k"] == "agg" and rv.get("ak") == "adt" and rv.get("is_enum"):
+                    if rv.get("variant") in same and rv["a"]:
+                        v = self.of_operand(rv["a"][0])
+                    elif rv.get("variant") not in same:
+                        v = 0  # another variant: contributes nothing to this payload
+                elif rv["k"] == "use":
+                    p2 = op_place(rv["a"][0])
+                    if p2 is not None and not p2["p"]:
+                        v = self._payload(p2["l"], variant, depth + 1)
+            elif kind == "call":
+                c = payload
+                if c.is_("Try::branch") and c.args:
+                    p2 = op_place(c.args[0])
+                    if p2 is not None and not p2["p"]:
+                        v = max(self._payload(p2["l"], "Ok", depth + 1), 0)
+                elif c.is_("FromResidual::from_residual"):
+                    v = 0
+            hi = max(hi, v)
+        return hi
 
     def _deref_local(self, l):
         # `&x` / `&mut x` of a local: bound of x
